@@ -888,7 +888,12 @@ class MemorizedFunc(Logger):
         if self.mmap_mode is not None:
             # Memmap the output at the first call to be consistent with
             # later calls
-            output = self._load_item(call_id, metadata)
+            try:
+                output = self._load_item(call_id, metadata)
+            except Exception:
+                # The result could not be stored, or has already been removed
+                # by a concurrent process: return the computed one.
+                pass
         return output, metadata
 
     def _persist_input(self, duration, call_id, args, kwargs, this_duration_limit=0.5):
